@@ -44,3 +44,30 @@ def encode_at(arr: np.ndarray, S: int):
     if S2 != S:
         raise ValueError("scale too small")
     return rows
+
+
+def fixed_findings(pid: str = "C11") -> set:
+    """Classifier keys of findings that have been repaired in /repo: entries of known_findings.jsonl with status
+    "fixed" for `pid`, plus the comma-separated keys in $AFV_PARETO_REPAIRS (for trying a patch on a scratch copy).
+    The harness then asks the driver for the model of the repaired code (`repairs` field of the request)."""
+    import json
+    import os
+    from pathlib import Path
+
+    keys = {k.strip() for k in os.environ.get("AFV_PARETO_REPAIRS", "").split(",") if k.strip()}
+    f = Path(__file__).resolve().parent.parent.parent / "known_findings.jsonl"
+    if f.exists():
+        for line in f.read_text().splitlines():
+            line = line.strip()
+            if not line or line.startswith("#"):
+                continue
+            e = json.loads(line)
+            if e.get("property") == pid and e.get("status") == "fixed":
+                keys.add(e["key"])
+    return keys
+
+
+def repairs_for(dtype, fixed: set) -> dict:
+    """`repairs` field for a matrix of the given dtype."""
+    return {"wide": ("float32-cast-collision" in fixed) and np.dtype(dtype) != np.float32,
+            "sweep_first": "sweep2d-sentinel-hides-inf" in fixed}
